@@ -377,6 +377,33 @@ def run_history(rx: str, ops: list) -> dict:  # noqa: C901, PLR0912, PLR0915
                     label = f"d_{{{ident}}}"
                     if label in defaults and defaults[label] != 1:
                         mismatches.append({"kind": f"default-value:{rx}:{pname}", "detail": f"{label}={defaults[label]} != 1"})
+            # (d) the parameters are those of the dynamics-free model plus those of the builders that own
+            #     a node of this model: nothing of an earlier assignment or an abandoned formulate() remains
+            def label_of(key):
+                return getattr(key, "name", str(key))
+
+            expected_parameters = {label_of(k) for k in twin_model.parameter_defaults}
+            for call in predicted_calls:
+                probe = registry["probe" + call[0]]
+                resonance = call[1]
+                expected_parameters.add(f"q_{{{call[0]},{resonance}}}")
+                if getattr(probe, "shared", False):
+                    expected_parameters.add("q_{shared}")
+                if getattr(probe, "exotic", False):
+                    expected_parameters |= {f"q_{{n,{resonance}}}", f"q_{{g,{resonance}}}", f"q_{{a,{resonance}}}[0]"}
+            computable = True
+            for candidates in chain_lib.values():
+                for nodes in candidates:
+                    for fn_, particle_, m_, (a_, b_), l_ in nodes:
+                        try:
+                            expected_parameters |= {label_of(k) for k in fn_(particle_, _variable_set(m_, a_, b_, l_))[1]}
+                        except Exception:  # noqa: BLE001
+                            computable = False
+            if computable and set(defaults) != expected_parameters:
+                extra = sorted(set(defaults) - expected_parameters)
+                missing = sorted(expected_parameters - set(defaults))
+                mismatches.append({"kind": f"parameter-set:{rx}",
+                                   "detail": f"parameters that belong to no assigned builder: {extra[:4]}; missing: {missing[:4]}"})
             ev.update(n_predicted_calls=len(predicted_calls), n_observed_calls=len(zc.PROBE_LOG),
                       n_chains=len(chains), lib=sorted(lib_owners),
                       owners=sorted(set(ref.owner.values())))
